@@ -832,8 +832,23 @@ fn search_c03_receives() {
     }
 }
 
+fn search_c03_echo() {
+    // rejected header lines of every length 1..400 made of multi-byte characters: whatever is echoed into an error must not panic
+    for unit in ["\u{e9}", "\u{20ac}", "\u{1f600}", "a\u{e9}"] {
+        for n in 1..200usize {
+            let line = unit.repeat(n);
+            for req in [format!("GET / HTTP/1.1\r\n{}\r\n\r\n", line), format!("GET / HTTP/1.1\r\nContent-Length: {}\r\n\r\n", line), format!("GET / HTTP/1.1\r\nExpect: {}\r\n\r\n", line)] {
+                let _ = Request::try_from(req.as_bytes(), None);
+                let (mut c, mut tx) = new_conn(None);
+                let _ = drive(&mut c, &mut tx, &[req.clone().into_bytes()]);
+            }
+        }
+    }
+}
+
 fn search_c03(budget: usize) {
     search_c03_receives();
+    search_c03_echo();
     one_write_per_call();
     let mut rng = Rng(0xE7037ED1A0B428DB);
     let mut tried = 0;
@@ -872,20 +887,25 @@ fn search_c05(budget: usize) {
         let mut calls = vec![];
         let mut body: Option<Vec<u8>> = None;
         let mut explicit_cl = false;
+        let mut srv: Option<String> = None;
+        let mut extra_allow = 0usize;
+        if rng.chance(5) { let id = if rng.chance(50) { String::new() } else { "s".repeat(100 + rng.below(400)) }; r.set_server(&id); srv = Some(id); }
+        if rng.chance(4) { extra_allow = 30 + rng.below(40); for _ in 0..extra_allow { r.allow_method(Method::Put); } }
         for _ in 0..rng.below(6) {
             match rng.below(6) {
                 0 => { let b: Vec<u8> = (0..rng.below(50)).map(|_| [b'a', b'\r', b'\n', b'H'][rng.below(4)]).collect(); r.set_body(Body::new(b.clone())); body = Some(b); explicit_cl = true; calls.push("set_body"); }
                 1 => { r.set_content_type(micro_http::MediaType::PlainText); calls.push("set_content_type"); }
                 2 => { r.set_deprecation(); calls.push("set_deprecation"); }
                 3 => { r.set_encoding(); calls.push("set_encoding"); }
-                4 => { r.set_server("srv"); calls.push("set_server"); }
+                4 => { r.set_server("srv"); srv = Some("srv".to_string()); calls.push("set_server"); }
                 _ => { r.allow_method(Method::Put); calls.push("allow_method"); }
             }
         }
         let mut out = vec![];
-        r.write_all(&mut out).unwrap();
+        let wr = r.write_all(&mut out);
         tried += 1;
-        let desc = format!("Response::new({:?}, {}) {:?}", v, nums[ci], calls);
+        let desc = format!("Response::new({:?}, {}) {:?}{}{}", v, nums[ci], calls, srv.as_ref().map(|x| format!(" server id of {} bytes", x.len())).unwrap_or_default(), if extra_allow > 0 { format!(" + {} allow_method calls", extra_allow) } else { String::new() });
+        if let Err(e) = wr { found("C05", desc, format!("write_all into a Vec failed: {}", e), "every response built through the public API serialises".into()); }
         // "the same bytes are produced however the sink splits the writes": a sink that accepts at most k bytes per write
         struct Short { k: usize, got: Vec<u8>, turn: usize }
         impl Write for Short {
@@ -913,8 +933,8 @@ fn search_c05(budget: usize) {
         // header lines, in order: Server, Connection: keep-alive, [Allow], [Deprecation], then ONLY when a length is present
         // Content-Type, Content-Length, [Accept-Encoding]
         let got_lines: Vec<&str> = head.split("\r\n").skip(1).collect();
-        let mut want_lines: Vec<String> = vec![format!("Server: {}", if calls.contains(&"set_server") { "srv" } else { "Firecracker API" }), "Connection: keep-alive".into()];
-        let n_allow = calls.iter().filter(|c| **c == "allow_method").count();
+        let mut want_lines: Vec<String> = vec![format!("Server: {}", srv.clone().unwrap_or_else(|| "Firecracker API".to_string())), "Connection: keep-alive".into()];
+        let n_allow = calls.iter().filter(|c| **c == "allow_method").count() + extra_allow;
         if n_allow > 0 { want_lines.push(format!("Allow: {}", vec!["PUT"; n_allow].join(", "))); }
         if calls.contains(&"set_deprecation") { want_lines.push("Deprecation: true".into()); }
         if let Some(n) = want_cl {
@@ -1459,8 +1479,50 @@ fn search_server_blocking() {
     }
 }
 
+fn search_server_garbage() {
+    // C09 "sending garbage": malformed header lines made of multi-byte characters, of many lengths (the 400 body echoes them)
+    let what = "clients send a request line followed by a malformed header line of n multi-byte characters, n = 1..300 step 7";
+    let mut s = Srv::new("C09h11");
+    for unit in ["\u{e9}", "\u{20ac}", "x\u{1f600}"] {
+        let mut n = 1;
+        while n < 300 {
+            let mut c = s.connect("C09", what);
+            let _ = c.write_all(format!("GET / HTTP/1.1\r\n{}\r\n\r\n", unit.repeat(n)).as_bytes());
+            s.pump("C09", what);
+            drop(c);
+            s.pump("C09", what);
+            n += 7;
+        }
+    }
+    if let Err(e) = round_trip(&mut s, "C09", what, "/after-garbage") { s.done(); found("C09", what.into(), e, "a later client is served".into()); }
+    s.done();
+}
+fn search_server_flush() {
+    // flush_outgoing_writes must come back although a client does not read its large response
+    let what = "client A asks for a response larger than the socket buffer and never reads it; the application answers and calls flush_outgoing_writes()";
+    let (txd, rxd) = std::sync::mpsc::channel::<()>();
+    std::thread::spawn(move || {
+        let mut s = Srv::new("C09h12");
+        let mut a = s.connect("C09", what);
+        let _ = a.write_all(b"GET /big HTTP/1.1\r\n\r\n");
+        s.pump("C09", what);
+        if let Some(i) = s.outstanding.iter().position(|r| r.request.uri().get_abs_path() == "/big") {
+            let r = s.outstanding.remove(i);
+            let _ = s.server.respond(r.process(|_| { let mut x = Response::new(Version::Http11, StatusCode::OK); x.set_body(Body::new(vec![b'x'; 4 << 20])); x }));
+            s.server.flush_outgoing_writes();
+        }
+        s.done();
+        drop(a);
+        let _ = txd.send(());
+    });
+    if rxd.recv_timeout(std::time::Duration::from_secs(20)).is_err() {
+        let _ = std::fs::remove_file(format!("/tmp/wit_C09h12_{}.sock", std::process::id()));
+        found("C09", what.into(), "flush_outgoing_writes() did not return within 20 s".into(), "it returns: a client that does not read cannot wedge the server thread".into());
+    }
+}
+
 fn search_server_histories(prop: &str) {
-    if prop == "C09" { search_server_blocking(); }
+    if prop == "C09" { search_server_blocking(); search_server_flush(); search_server_garbage(); }
     if prop == "C07" {
         // H10: requests discarded in front of a malformed one were never counted as in flight: the connection must still wait
         //      for the answer to the request that IS in flight before its descriptor number can be reused
@@ -1575,6 +1637,8 @@ fn search_server_histories(prop: &str) {
             s.pump(prop, what);
             drop(c1);
             s.pump(prop, what);
+            // "with any delay": the server is polled many more times (nothing is ready) before the application answers
+            for _ in 0..60 { if let Ok(v) = { let mut p = libc::pollfd { fd: s.server.epoll().as_raw_fd(), events: libc::POLLIN, revents: 0 }; if unsafe { libc::poll(&mut p, 1, 0) } > 0 { s.server.requests() } else { Ok(vec![]) } } { s.outstanding.extend(v); } }
             let mut c2 = s.connect(prop, what);
             s.answer("/c1/r1");
             s.pump(prop, what);
